@@ -9,8 +9,12 @@ PRIVATE = [("GET", "/"), ("GET", "/status"), ("GET", "/status/getmessage"), ("GE
 CREDS = ["none", "empty", "wrong", "other", "ok"]
 
 
+# with a non-zero cool-off the throttle bookkeeping is live: a refused request must not touch it either
+BOOT_THROTTLED = ["start", "postconfig %s 0 %s" % (PW, hx('PostMessageCooloff = "3ms"\nSessionExpiration = "600s"\n[IRC]\n[[IRC.Operators]]\nName = "op"\nPassword = "secret"\n'))]
+
+
 def scenario(rng, tier):
-    ops = list(api_run.BOOT)
+    ops = list(BOOT_THROTTLED)
     ops += ["create a", "create b", "create d", "post a ok 1 " + hx("NICK alice"), "post a ok 2 " + hx("USER u 0 * :real"), "post a ok 3 " + hx("JOIN #c"),
             "post d ok 1 " + hx("NICK dora"), "delete d ok " + hx("gone")]
     probes = []   # (op index, kind, target, cred)
